@@ -479,7 +479,7 @@ func cmdReplay(args []string) {
 			ch := simrt.NewChooser(simrt.Mix(rec.VerifSeed, uint64(i)))
 			res, _ := oneRun(ch, opt, rl)
 			for _, f := range res.Failures {
-				if f.concerns(rec.Property) && (i == rec.Run || !*strict) {
+				if f.concerns(rec.Property) && (i == rec.Run || !*strict || (strings.Contains(f.Sig, "/race/") && strings.Contains(rec.Signature, "/race/"))) {
 					fmt.Printf("REPRODUCED property=%s signature=%s in run %d of the range %d..%d: %s\n", rec.Property, f.sigFor(rec.Property), i, *rec.RunFrom, rec.Run, f.Msg)
 					os.Exit(1)
 				}
